@@ -17,14 +17,17 @@ pub struct Cx {
     pub reach: std::collections::BTreeSet<String>,
     pub doc: DocTables,
     pub tier: String,
+    /// problems met while telling same-typed fields apart (only the rules that need those names fail closed)
+    pub canon_problems: Vec<String>,
 }
 
 impl Cx {
     pub fn load(repo: &Path, verif: &Path, tier: &str) -> Result<Cx, String> {
         let ix = Index::load(&repo.join("derive-ex").join("src"))?;
+        let canon_problems = crate::model::init_dynamic_canon(&ix);
         let (roles, reach) = discover(&ix)?;
         let doc = DocTables::load(repo)?;
-        Ok(Cx { repo: repo.to_path_buf(), verif: verif.to_path_buf(), ix, roles, reach, doc, tier: tier.to_string() })
+        Ok(Cx { repo: repo.to_path_buf(), verif: verif.to_path_buf(), ix, roles, reach, doc, tier: tier.to_string(), canon_problems })
     }
     pub fn report(&self, prop: &str) -> Report {
         let mut r = Report::new(prop, &self.tier, &self.verif);
